@@ -214,6 +214,7 @@ type Ctx struct {
 	Analysed  []string
 	undecided []string
 	floors    map[string]int
+	onlyRules map[string]bool // when set, only obligations of these rules are recorded (a property borrowing one rule of another)
 }
 
 func (c *Ctx) Thorough() bool { return c.Tier == "thorough" }
@@ -231,10 +232,16 @@ func (c *Ctx) pos(p token.Pos) string {
 }
 
 func (c *Ctx) Ok(rule, key string, p token.Pos, detail string, args ...any) {
+	if c.onlyRules != nil && !c.onlyRules[rule] {
+		return
+	}
 	c.Obls = append(c.Obls, Obligation{Rule: rule, Key: key, Pos: c.pos(p), OK: true, Detail: fmt.Sprintf(detail, args...)})
 }
 
 func (c *Ctx) Bad(rule, key string, p token.Pos, detail string, args ...any) {
+	if c.onlyRules != nil && !c.onlyRules[rule] {
+		return
+	}
 	c.Obls = append(c.Obls, Obligation{Rule: rule, Key: key, Pos: c.pos(p), OK: false, Detail: fmt.Sprintf(detail, args...)})
 }
 
@@ -259,6 +266,9 @@ func (c *Ctx) Note(format string, args ...any) {
 
 // Floor demands at least n obligations (ok or not) under the rule.
 func (c *Ctx) Floor(rule string, n int) {
+	if c.onlyRules != nil && !c.onlyRules[rule] {
+		return
+	}
 	// confirmed instance counts guard against a rule matching nothing; duplicated sites may legitimately be merged by
 	// a refactoring, so small counts only require non-vacuity and large ones half the confirmed number
 	if n >= 40 {
